@@ -644,6 +644,38 @@ fn read_store(sh: &Shared) -> Result<Store, String> {
 }
 
 pub fn run_thr(case: &Case, dir: PathBuf) -> Outcome {
+    // a setup that ends in `Reopen`: a first instance (no threads, nothing scheduled) creates the
+    // keyspaces and the seed content and is closed; the run proper then works on the RECOVERED
+    // database
+    {
+        let split = case.program.iter().position(|o| matches!(o, Op::RunThreads)).unwrap_or(case.program.len());
+        if case.program[..split].iter().any(|o| matches!(o, Op::Reopen)) {
+            crate::hooks::set_mode(crate::hooks::MODE_SEQ);
+            crate::hooks::set_rotation_threshold(case.cfg.rotation_threshold);
+            let mut cfg0 = case.cfg.clone();
+            cfg0.workers = 0;
+            let first = (|| -> Result<(), String> {
+                let mut inst = Instance::open(&dir, &cfg0)?;
+                for op in &case.program[..split] {
+                    match op {
+                        Op::CreateKs { ks } => inst.open_ks(&cfg0, *ks as usize, &cfg0.opts[*ks as usize])?,
+                        Op::Insert { ks, key, val } => {
+                            if let Some(k) = inst.k(*ks) {
+                                k.insert(&cfg0.keys[*key as usize], val.bytes()).map_err(|e| format!("{e:?}"))?;
+                            }
+                        }
+                        _ => {}
+                    }
+                }
+                Ok(())
+            })();
+            if let Err(e) = first {
+                let mut o = Outcome::ok(Stats::default(), 0);
+                o.violation = Some(Violation::new("open-failed", format!("first instance: {e}")));
+                return o;
+            }
+        }
+    }
     crate::hooks::set_mode(crate::hooks::MODE_THR);
     crate::hooks::set_rotation_threshold(case.cfg.rotation_threshold);
     let max_steps = 400_000;
@@ -1084,7 +1116,12 @@ pub fn run_thr(case: &Case, dir: PathBuf) -> Outcome {
     }
     // C12 (THR): after closing, the directory must hold exactly the names that existed at the
     // end, each with the content every handle agreed on
-    if violation.is_none() && mon.is_none() && pmon.is_none() && (case.prop == "C12" || case.prop == "C16") {
+    // (every fault-free THR run ends like this: what all threads agreed on must survive the close;
+    // runs that bulk-ingest tombstones are left to C04/C11, where the recorded finding
+    // KF-C04-ingested-tombstone-gc - a journaled value resurrected after an ingested tombstone was
+    // dropped - is matched by its own discriminator)
+    let ingests_tombstones = case.threads.iter().flatten().chain(case.program.iter()).any(|o| matches!(o, Op::Ingest { items, .. } if items.iter().any(|(_, v)| v.is_none())));
+    if violation.is_none() && mon.is_none() && pmon.is_none() && (!ingests_tombstones || case.prop == "C12" || case.prop == "C16") {
         if let Ok(fs) = &final_store {
             stats.inc("reopen_after_thread_run");
             match std::panic::catch_unwind(std::panic::AssertUnwindSafe(|| crate::faults::read_dir_state(&dir, &cfg))) {
